@@ -404,7 +404,10 @@ H_note0(r) ==
                             THEN {V("C19", "throttle " \o r.thr \o ": " \o r.kind \o " left " \o ToString(<<r.running, r.qlen, went>>) \o ", Throttle.tla says " \o ToString(<<exp.running, exp.qlen, exp.go>>), "")} ELSE {})
             IN Res([o EXCEPT !.thr = Put(o.thr, r.thr, [limit |-> r.limit, running |-> r.running, qlen |-> r.qlen])], vs)
       [] r.kind = "resetres" ->
-            Res([o EXCEPT !.refetch = Put(o.refetch, r.key, Get(o.refetch, r.key, 0) + 1)], {})
+            \* ResSub.tla OneRefetch: a resource is never re-fetched while a re-fetch of it is outstanding
+            Res([o EXCEPT !.refetch = Put(o.refetch, r.key, Get(o.refetch, r.key, 0) + 1)],
+                IF Get(o.refetch, r.key, 0) > 0 \/ \E x \in DOMAIN o.mqpend : o.mqpend[x].t = "get" /\ o.mqpend[x].key = r.key /\ o.mqpend[x].refetch
+                THEN {V("C12", "re-fetch of " \o r.key \o " started while an earlier re-fetch is outstanding", "")} ELSE {})
       [] r.kind \in CENotes /\ ~o.hadStop /\ o.stop.l = 0 ->
             \* C09: the cache entry follows CacheEntry.tla in every critical section
             LET st == CEStep(Get(o.ce, r.n, CENew), r)
